@@ -25,7 +25,7 @@ The change must look like a mistake a maintainer could plausibly make - a plain 
 
 IMPORTANT for this round: the earlier attempts on this property were all found by the checker under test. They were:
 __EARLIER__
-That checker enumerates: all short strings over small alphabets and every byte value at structural positions; counters/lengths around every documented limit, around powers of two up to 4 KiB and at the lengths where 8-, 16- and 32-bit counters wrap (up to 4 GiB); label counts; long non-ASCII (IDN) domains, soft-hyphen padding, alternative dot characters and fullwidth letters; every Unicode scalar value as a local-part character (bare, quoted, next to a quoted space) and as a domain label (alone, after a letter, as the whole domain); 40 local-part shapes x 36 domain shapes (colons, dots, brackets, '@' inside quoted local parts in front of literals); IPv6 groups in 27 spellings at every index, octets in 25 spellings; every row of the TLD table (CSV and the compiled table) with prefixes and case variants through every validator, every byte substituted at every position, reserved names extended by 1-3 characters; return codes followed through eav_is_email under 14 masks (0, all, default, single bits) x tld on/off over all corpora, all 2048 masks on fixed addresses on all three IDN backends; ordered pairs of inputs validated back to back, incl. every ordered pair of 150 feature addresses (rooted, upper-case, IDN, literal, degenerate) x every ordered pair of (mode, tld_check) configurations on one and on two objects; all API histories over a menu of ~20 addresses, 4 masks, 6 mode values with a digest of the library's static memory in the state; two-/three-thread schedules of one or two calls per thread at load/store granularity from a cold start; every IDN error code injected with and without an output buffer, tld_check on and off, message text compared with the IDN library's; the CLI on all short line sequences, line lengths around powers of two, multi-byte characters at every offset around multiples of 256..8192; all 8 option builds side by side on all corpora, incl. the rule that the verdict may not depend on WHICH non-ASCII character is used. Find a DIFFERENT realistic mistake that is still likely to be MISSED, within the property's input domain. Think about what is NOT in that list: e.g. a combination of three or four specific settings/inputs; behaviour that depends on a specific VALUE or a relation between two values (two labels being equal, a label equal to the local part, a digit sequence, a particular TLD row or class, a code-point RANGE with more than one character in a label); the third or fourth element of something; an interaction between two non-adjacent parts of the address; an error path taken only when two things are wrong at once; a sequence of THREE calls; an API entry point or struct field that is rarely used; data files / generators rather than code (for the table property); output formatting / exit status of the CLI, unusual file shapes.
+That checker enumerates: all short strings over small alphabets and every byte value at structural positions (local parts to 6 tokens, quoted-string bodies to 6 tokens); counters/lengths around every documented limit, around powers of two up to 4 KiB and at the lengths where 8-, 16-, 31- and 32-bit counters wrap (ranges up to 4 GiB, for whole addresses and for the per-part validators, with structural features at the start and at the end); both halves of the address near their limits at once; label counts and label depth (reserved names, look-alikes and table rows behind all sequences of 0-4 labels and behind up to 126 labels); long non-ASCII (IDN) domains, soft-hyphen padding, alternative dot characters and fullwidth letters; every Unicode scalar value as a local-part character in 34 surroundings and as a domain label (alone, after a letter, as the whole domain); 40 local-part shapes x 36 domain shapes; IPv6 groups in 27 spellings at every index, octets in 25 spellings, literals behind three local-part shapes, on all three IDN back ends with poisoned heap memory; 24 filler patterns up to 64 KiB inside complete addresses under a deterministic cost monitor; every row of the TLD table (CSV and the compiled table) with prefixes and case variants through every validator, every byte substituted at every position, the generators re-run and compared, the CSV title line checked; return codes followed through eav_is_email under 14 masks (0, all, default, single bits) x tld on/off over all corpora with the expected class computed from the shipped data, all 2048 masks on fixed addresses on all three back ends; ordered pairs of inputs validated back to back, incl. every ordered pair of 150 feature addresses x every ordered pair of (mode, tld_check) configurations on one and on two objects, and one address per TLD class under 14 masks after every feature address; all API histories over a menu of ~20 addresses, 4 masks, 6 mode values with a digest of the library's static memory in the state, eav_errstr read after every call and across eav_free; two-/three-thread schedules at load/store granularity from a cold start plus a scan of the library's libc imports for functions with hidden static state; every IDN error code injected with and without an output buffer, tld_check on and off, message text compared with the IDN library's; the CLI on all short line sequences, line lengths around powers of two, multi-byte characters at every offset around multiples of 256..8192; all 8 option builds side by side on all corpora. Find a DIFFERENT realistic mistake that is still likely to be MISSED, within the property's input domain. Think about what is NOT in that list: e.g. a combination of three or four specific settings/inputs; behaviour that depends on a specific VALUE or a relation between two values (two labels being equal, a label equal to the local part, a digit sequence, a particular TLD row or class, a code-point RANGE with more than one character in a label); the third or fourth element of something; an interaction between two non-adjacent parts of the address; an error path taken only when two things are wrong at once; a sequence of THREE or more calls with a setting changed in between; an API entry point, struct field or callback that is rarely used; behaviour for a specific TLD row or a specific PAIR of rows; a slip in only one of several near-identical copies of a code block (per mode, per back end) that manifests only for an input class the copies treat alike; data files / generators rather than code (for the table property); output formatting / exit status of the CLI, unusual file shapes.
 
 Notes on the environment: libidn2 is installed (link with -lidn2; the default build uses partial/idn2). libidn and idnkit are NOT installed (if you need to compile partial/idn or partial/idnkit, write minimal stub headers/implementations of their API in your _seed/ directory, forwarding to libidn2). Perl's Text::CSV is not installed. gcc, clang (with sanitizers), valgrind and pthreads are available. The build puts libeav.so / libeav.a in the worktree root.
 __EXTRA__
